@@ -62,8 +62,30 @@ SPEC = {
              "5xx and content type; one body in four has the patterns written into it (start, end, across byte 256), so it may satisfy the "
              "assertion: such an invocation must then be clean to its end. A step whose request never reached the target must be a "
              "failure sample (proto 0, net error) and must depend on the misbehaving answer; a step that was sent and answered well must be "
-             "a clean 200; an invocation may end early only at a sample that is not a clean 200. Pools are built by config.DecodeAndValidate, run by the real "
-             "engine, samples read from the real phout output. Non-trivial = at least one misbehaving exchange followed by a good one; "
+             "a clean 200; an invocation may end early only at a sample that is not a clean 200. Redirecting targets x the gun option `redirect` (TestHTTPGun: http and connect guns, "
+             "TestHTTP2Gun, TestScenarioGun; one case in three with `redirect: true`, then every second misbehaving entry / step - otherwise "
+             "one in eight - is answered with redirects before or instead of its behaviour): status 301/302/303/307/308, Location written "
+             "as a relative reference, an absolute path, an absolute URL on the same target and scheme, or a query-only reference; 1-9 "
+             "hops to fresh URIs and then the behaviour proper (a following gun must deliver what that behaviour demands: a clean 200 for "
+             "a well-behaved one, the whole invocation clean for a scenario), 10-14 hops (beyond net/http's documented default of 10 "
+             "consecutive requests: one sample, failure or final answer), and after 0-3 hops a chain WITHOUT an end - the Location is the "
+             "requested URI itself, ever fresh URIs, two URIs naming each other -, a Location that cannot be parsed or used ('://nowhere', "
+             "'http://[::1', '%zz', a host with a space, ftp://), or a 3xx without Location. With `redirect` off the sample must carry the "
+             "3xx (a scenario step with postprocessors may report their failure instead); with it on an endless chain or an unusable "
+             "Location must leave ONE failure sample, a 3xx without Location its status, and the instance must go on with the next ammo. "
+             "A gun that has made 1000 requests for one ammo entry (100 x the default policy; a count, not a time) and is still following, "
+             "or a run that is not over after 90 s, is a hang: the target then stops redirecting so that the instances come back, and the "
+             "hang is reported only if the same case hangs again on an immediate re-run (goroutine stacks attached). http2 redirects stay "
+             "on https (a cross-scheme redirect ends in the documented fatal condition); failing TLS handshakes and a target that goes away "
+             "are not combined with followed chains. gRPC targets whose port REFUSES connections while instances are being started "
+             "(TestGRPCGuns, one case in two, grpc and grpc/scenario guns): (a) nothing ever listens on the target port, the method "
+             "descriptions come from a reflection-only listener named by `reflect_port` (1-3 instances); (b) a target of its own stops "
+             "accepting connections when its first call arrives - the connections it has stay served, its port stays reserved - while a "
+             "startup schedule (const 10/20 per s or line up to 40 per s, over 200-300 ms) is still starting instances and a const rps "
+             "schedule paces 10-16 calls: Engine.Run must return nil, every call must leave one sample, 200 for exactly the calls the target "
+             "received and 503 (Unavailable) for all others. Pools are built by config.DecodeAndValidate, run by the real "
+             "engine, samples read from the real phout output. Non-trivial = at least one misbehaving exchange followed by a good one (refusing gRPC targets: "
+             "at least one refused call reported and the run completed); "
              "distinct = hash of the case."),
     "floors": {"TestScenarioGun/post_header_substr": 0.15, "TestScenarioGun/post_jsonpath": 0.15, "TestScenarioGun/post_xpath": 0.15,
                "TestScenarioGun/post_assert": 0.15, "TestHTTPGun/mis_reset": 0.05, "TestHTTPGun/mis_bad_chunk": 0.05,
@@ -100,6 +122,13 @@ SPEC = {
                "TestScenarioDataFlow/assert_body_fails_long_no_ws_base64": 0.006, "TestScenarioDataFlow/assert_body_fails_long_no_ws_hex": 0.006,
                "TestScenarioDataFlow/assert_body_fails_long_no_ws_filler": 0.006, "TestScenarioDataFlow/assert_body_fails_long_no_ws_binary": 0.004,
                "TestScenarioDataFlow/blob_len_ge_64k": 0.04,
+               "TestHTTPGun/redirect_option_on": 0.11, "TestHTTPGun/redirect_loop": 0.06, "TestHTTPGun/redirect_loop_http_gun": 0.03,
+               "TestHTTPGun/redirect_loop_connect_gun": 0.015, "TestHTTPGun/redirect_chain_followed": 0.035,
+               "TestHTTPGun/redirect_not_followed": 0.1, "TestHTTP2Gun/redirect_loop": 0.05, "TestHTTP2Gun/redirect_chain_followed": 0.04,
+               "TestScenarioGun/redirect_loop": 0.03, "TestScenarioGun/redirect_chain_followed": 0.035,
+               "TestGRPCGuns/grpc_target_refuses_always": 0.1, "TestGRPCGuns/grpc_target_refuses_goes_away": 0.06,
+               "TestGRPCGuns/grpc_goes_away_refused_seen": 0.06, "TestGRPCGuns/grpc_went_away_while_instances_start": 0.06,
+               "TestGRPCGuns/grpc_target_refuses_scenario_gun": 0.1, "TestGRPCGuns/grpc_target_refuses_grpc_gun": 0.12,
                # absolute counts (every case of the batch runs both guns)
                "TestGRPCDefaultTimeout/default_timeout_grpc_gun": 1, "TestGRPCDefaultTimeout/default_timeout_grpc_scenario_gun": 1},
     "manifest": {
@@ -120,6 +149,12 @@ SPEC = {
                  "(no machine load explains 10 s without progress of a run that takes milliseconds). A proxy that accepts a CONNECT and "
                  "sends no (complete) header block is NOT generated: pandora has no configurable bound for that wait. "
                  "TestGRPCDefaultTimeout asserts only the upper bound (the call ends, 15 s + 10 s slack), not that the call lasted 15 s. "
+                 "Redirects: the number of hops a following gun accepts is net/http's default policy, not a documented pandora limit, so "
+                 "for finite chains of 10-14 hops only 'one sample' is asserted; follow-up requests of a redirected scenario step 0 are told "
+                 "from a new invocation by the Referer net/http adds; http2/scenario is not run against redirecting targets (its oracle "
+                 "identifies steps by connection). Refusing gRPC target (b): the listener is closed while established connections stay "
+                 "served, so which calls fail depends on which instance got the token - only the 200 = received / 503 = not received "
+                 "split and the sample count are asserted. "
                  "A crash of the worker process (a panic in a goroutine of net/http's transport cannot be recovered by the engine) is "
                  "attributed by the driver to the case being executed."),
     },
